@@ -934,8 +934,11 @@ impl<'a> Message<'a> {
             })?;
 
             // if we have seen any ending attributes, then there is only a fixed set of attributes
-            // that are allowed.
-            if seen_ending_len > 0 && !ending_attributes.contains(&attr.get_type()) {
+            // that are allowed, and nothing at all may follow a FINGERPRINT.
+            if seen_ending_len > 0
+                && (!ending_attributes.contains(&attr.get_type())
+                    || seen_ending_attributes.contains(&Fingerprint::TYPE))
+            {
                 if seen_ending_attributes.contains(&Fingerprint::TYPE) {
                     warn!("unexpected attribute {} after FINGERPRINT", attr.get_type());
                     return Err(StunParseError::AttributeAfterFingerprint(attr.get_type()));
